@@ -243,9 +243,34 @@ def check_triples(acc: Acc, name: str, grid: list[float]) -> None:
                     f"{name}({name}({A[k]},{B[k]}),{C[k]}) = {L[k]!r} but {name}({A[k]},{name}({B[k]},{C[k]})) = {Rr[k]!r}")
 
 
+COMPLEMENTS = [0.1, 0.2, 0.3, 0.4, 0.41, 0.18, 0.05, 0.45, 0.49, 1.0 / 3.0, 0.07, 0.15, 0.35, 0.0625 + 1e-17, 0.123456789]
+
+
+def check_symmetry_at_rounding_boundaries(acc: Acc, name: str) -> None:
+    """Decimal pairs whose sum is 1 only after rounding (a, 1-a and their printed decimals): whatever the value is, it is
+    the same for both operand orders, for scalars and arrays (the exact-arithmetic formula is not demanded here)."""
+    impl = impl_of(name)
+    pairs = []
+    for a in COMPLEMENTS:
+        for b in (1.0 - a, float(f"{1.0 - a:.2f}"), float(f"{1.0 - a:.3f}")):
+            pairs.append((a, b))
+    A = np.array([p[0] for p in pairs])
+    B = np.array([p[1] for p in pairs])
+    ab, ba = np.asarray(impl.compute(A, B), dtype=float), np.asarray(impl.compute(B, A), dtype=float)
+    for k, (a, b) in enumerate(pairs):
+        acc.case((name, "complement", k), nontrivial=True)
+        x, y = float(impl.compute(a, b)), float(impl.compute(b, a))
+        if not (same(x, y) and same(float(ab[k]), x) and same(float(ba[k]), x)):
+            acc.violate("commutative", {"norm": name, "lattice": "rounding-boundary"}, {"norm": name, "a": a, "b": b}, x, [y, float(ab[k]), float(ba[k])],
+                        f"{name}({a!r},{b!r}) = {x!r} but {name}({b!r},{a!r}) = {y!r} (array: {float(ab[k])!r}, {float(ba[k])!r})")
+            return
+
+
 def run_shard(tier: str, seed: int, shard):
     name, part = shard
     acc = Acc(ID)
+    if part == "edge":
+        acc.guard({"norm": name, "a": 0.3, "b": 0.7}, check_symmetry_at_rounding_boundaries, acc, name)
     pair, trip, phased = grids(tier, seed)
     case = {"norm": name, "a": 0.5, "b": 0.5}
     if part == "dyadic":
